@@ -1,4 +1,11 @@
+import os
 from vlib.core import Query
+from vlib import slicer
+def gen(wd):
+    pd = "Source/Lib/Encoder/Codec/EbPictureDecisionProcess.c"
+    open(os.path.join(wd, "c22_skip.inc"), "w").write(slicer.functions(pd, ["get_relative_dist", "svt_av1_setup_skip_mode_allowed"]))
+    pk = "Source/Lib/Encoder/Codec/EbPacketizationProcess.c"
+    open(os.path.join(wd, "c22_tu.inc"), "w").write(slicer.functions(pk, ["get_reorder_queue_pos", "get_reorder_queue_entry", "count_frames_in_next_tu"]))
 COPIES = {1: "Source/Lib/Common/Codec/EbInterPrediction.c:get_relative_dist_enc",
           2: "Source/Lib/Encoder/Codec/EbAdaptiveMotionVectorPrediction.c:get_relative_dist",
           3: "Source/Lib/Encoder/Codec/EbPictureDecisionProcess.c:get_relative_dist",
@@ -8,7 +15,7 @@ META = {
     "level_text": "Bounded symbolic check of each of the five order-hint distance helpers compiled from the real sources: for all order_hint_bits 1..8 and all in-range a,b the result is the signed distance modulo 2^bits and no undefined behaviour occurs. Queue wrap-around is covered by the packetization queries (see C03/C02).",
     "level_note": "Bounded: bits 1..8 (AV1 maximum), arguments in range as the callers mask them. Whole-stream behaviour past the wrap is not encoded; only the arithmetic that makes it correct is.",
     "assumptions": ["a,b in [0,2^bits) (order hints are masked when assigned)"],
-    "outside": ["actually encoding thousands of frames", "decodability of long streams"],
+    "outside": ["actually encoding thousands of frames", "decodability of long streams", "other users of the distance helpers (MFMV projection, reference scaling)"],
     "stubs": [], "explanation": "per-copy solver query over all (bits,a,b)"}
 def queries(tier):
     qs = []
@@ -16,4 +23,11 @@ def queries(tier):
         qs.append(Query(name="reldist_copy%d" % c, harness="C22/rd_copy.c", defines=["COPY=%d" % c],
                         funcs=[f], bound="bits 1..8, all a,b in [0,2^bits), enable flag both ways",
                         what="relative distance == signed (a-b) mod 2^bits, in range, no UB", timeout=300))
+    qs.append(Query(name="skip_mode_shift_invariance", harness="C22/skipmode.c", gen=gen, unwind=9, timeout=900,
+                    funcs=["Source/Lib/Encoder/Codec/EbPictureDecisionProcess.c:svt_av1_setup_skip_mode_allowed", COPIES[3]],
+                    bound="7 references at distances -63..63, any picture number, any common shift < 2^16 (wraps of the 2^7 period included)",
+                    what="skip-mode reference selection depends only on distances (correct across order-hint wrap)"))
+    qs.append(Query(name="tu_count_queue_wrap", harness="C22/tucount.c", gen=gen, unwind=10, timeout=600,
+                    funcs=["Source/Lib/Encoder/Codec/EbPacketizationProcess.c:count_frames_in_next_tu", "Source/Lib/Encoder/Codec/EbPacketizationProcess.c:get_reorder_queue_entry"],
+                    bound="queue depth macro scaled 2048 -> 8; every head position, every presence/shown pattern", what="temporal-unit frame count computed modulo the queue depth"))
     return qs
